@@ -778,7 +778,7 @@ func Spec() *run.Spec {
 			"active_cells_on_block_face": 1000, "active_cells_on_block_edge": 50, "active_cells_on_block_corner": 5,
 			"cases_with_negative_block_coordinates": 20, "long_capsules_over_3_or_more_blocks": 1, "entry_points": 4, "field_builders": 3,
 			"adders": 3, "adder_x_builder_x_march": 20, "parallel_adder_cases_multiblock_combinefields_2plus_shapes": 5, "parallel_adder_cases_multiblock_sdf_union_2plus_shapes": 5,
-			"parallel_fill_cases": 16, "directed_seam_cases": 10, "cases_with_seam_weld_trigger": 10, "fieldmarch_cube_configurations": 250,
+			"parallel_fill_cases": 16, "directed_boundary_cases": 60, "boundary_placements": 60, "histories": 12, "history_marches_after_a_later_add_allocated_new_blocks": 12, "history_marches_compared_with_a_fresh_canvas": 12, "directed_seam_cases": 10, "cases_with_seam_weld_trigger": 10, "fieldmarch_cube_configurations": 250,
 		},
 		Phases: []run.Phase{
 			{Name: "analytic", Cases: func(t string) int {
@@ -793,6 +793,18 @@ func Spec() *run.Spec {
 				}
 				return 24
 			}, Run: parallelFillCase, Batch: 2, CPUBudgetS: 240, Parallel: 4},
+			{Name: "boundary", Cases: func(t string) int {
+				if t == "thorough" {
+					return 900
+				}
+				return 90
+			}, Run: boundaryCase, Batch: 3, CPUBudgetS: 120},
+			{Name: "histories", Cases: func(t string) int {
+				if t == "thorough" {
+					return 300
+				}
+				return 24
+			}, Run: historyCase, Batch: 1, CPUBudgetS: 240},
 			{Name: "lattice", Cases: func(t string) int {
 				if t == "thorough" {
 					return 1600
